@@ -1224,7 +1224,11 @@ def proxy_request(rng, with_body=True):
     body = bytes((j * 5 + 1) % 251 for j in range(n))
     if n or rng.random() < 0.3:
         hs.append(b"Content-Length: %d" % n)
-    head = m + b" " + t.encode() + b" HTTP/1.1" + b"".join(b"\r\n" + h for h in hs)
+    tb = t.encode()
+    if rng.random() < 0.08:
+        # raw octets that are not UTF-8 (and some that are) in the query: passed on as the client sent them
+        tb = tb.split(b"?")[0] + b"?" + pick(rng, [b"q=caf\xe9", b"q=\xff\xfe", b"n=\xc3\xa9", b"a=\x80&b=\xe9\xe9", b"q=%E9\xe9", b"\xe9"])
+    head = m + b" " + tb + b" HTTP/1.1" + b"".join(b"\r\n" + h for h in hs)
     return head, body
 
 
@@ -1339,7 +1343,8 @@ def gen_C10(rng, count, tier):
     # several clients at once with a small accept backlog; one leaves while the others are still sending
     yield ("tls", "plain crowd")
     reqs = {
-        "fs": [b"GET /big.bin HTTP/1.1\r\n\r\n", b"GET /in.txt HTTP/1.1\r\n\r\n", b"GET /sub HTTP/1.1\r\n\r\n", b"GET /big.bin HTTP/1.1\r\nRange: bytes=10-69000\r\n\r\n",
+        "fs": [b"HEAD /big.bin HTTP/1.1\r\n\r\n", b"HEAD /in.txt HTTP/1.1\r\n\r\n", b"OPTIONS /in.txt HTTP/1.1\r\n\r\n",
+               b"GET /big.bin HTTP/1.1\r\n\r\n", b"GET /in.txt HTTP/1.1\r\n\r\n", b"GET /sub HTTP/1.1\r\n\r\n", b"GET /big.bin HTTP/1.1\r\nRange: bytes=10-69000\r\n\r\n",
                b"GET /nonexistent HTTP/1.1\r\n\r\n", b"BAD\r\n\r\n", b"GET /edge.bin HTTP/1.1\r\n\r\n"],
         "slot": [b"POST /s HTTP/1.1\r\nContent-Length: 5\r\n\r\nhello", b"POST /s HTTP/1.1\r\nContent-Length: 50\r\n\r\nshort", b"GET /s HTTP/1.1\r\n\r\n", b"GET /x HTTP/1.1\r\n\r\n"],
         # proxied to an upstream that accepts and never answers: the request stays in flight
@@ -1367,6 +1372,12 @@ def gen_C10(rng, count, tier):
             # the client is gone (and its objects deleted) before the upstream connection is established
             evs = ["new", "feed:" + hx(req), pick(rng, ["peerclose", "peerclose", "killserver"]), "reap", "turn", "turn"]
             tail = [pick(rng, ["turn", "reap", "ackall"]) for _ in range(rng.randrange(0, 3))]
+        if kind == "proxy" and rng.random() < 0.35:
+            # the upstream has begun to answer (and keeps its connection open) when the connection, the handler or the
+            # server goes away
+            up = pick(rng, [b"HTTP/1.1 200 OK\r\n\r\npartial", b"HTTP/1.1 200 OK\r\nContent-Length: 100\r\n\r\nabc", b"HTTP/1.1 100 Continue\r\n\r\n", b"HTTP/1.1 200 OK\r\n"])
+            evs = ["new", "feed:" + hx(req), "turn", "upsend:" + hx(up), "turn"]
+            tail = [pick(rng, ["killserver", "peerclose", "killhandler", "turn"])] + [pick(rng, ["turn", "reap", "ackall", "killserver", "peerclose"]) for _ in range(rng.randrange(0, 3))]
         yield ("life", " ".join(toks + evs + tail))
 
 
